@@ -32,6 +32,30 @@ def refInitVal [Add R] [Mul R] (isZero : R → Bool) (one nonzdelt zdelt : R) (x
 def mysticInitVal [Add R] [Mul R] (isZero : R → Bool) (one radius tenth : R) (x0 : Pt R) : Pt R :=
   x0.map fun x => if isZero (x * (one + radius)) = true then (radius * radius) * tenth else x * (one + radius)
 
+/-- The coefficient selection at the top of `NelderMeadSimplexSolver._Step` (scipy_optimize.py l.255-259):
+```
+if adaptive:
+    dim = float(len(self.population[0]))
+    rho = 1; chi = 1+2/dim; psi = 0.75-1/(2*dim); sigma = 1-1/dim
+else:
+    rho = 1; chi = 2; psi = 0.5; sigma = 0.5
+```
+`one two half q34` are the literals 1, 2, 0.5, 0.75 at the scalar type and `n` is `float(N)`.  The reference
+`_scipy060optimize.fmin` (l.180) has the second line only. -/
+def mysticCoef [Add R] [Sub R] [Mul R] [Div R] (one two half q34 : R) (adaptive : Bool) (n : R) : Coef R :=
+  if adaptive = true then
+    { one := one, rho := one, chi := one + two / n, psi := q34 - one / (two * n), sigma := one - one / n, n := n }
+  else
+    { one := one, rho := one, chi := two, psi := half, sigma := half, n := n }
+
+/-- the published coefficient sets: the standard one (Nelder & Mead; reference l.180) and the dimension-adaptive one of
+Gao & Han (2012), `(rho, chi, psi, sigma) = (1, 1 + 2/n, 3/4 - 1/(2n), 1 - 1/n)`, written over a field as closed fractions -/
+def publishedCoef [Add R] [Sub R] [Mul R] [Div R] (one two three four : R) (adaptive : Bool) (n : R) : Coef R :=
+  if adaptive = true then
+    { one := one, rho := one, chi := (n + two) / n, psi := (three * n - two) / (four * n), sigma := (n - one) / n, n := n }
+  else
+    { one := one, rho := one, chi := two, psi := one / two, sigma := one / two, n := n }
+
 /-- python's builtin `max(seq)`: `None` stands for the ValueError on an empty sequence -/
 def pyMax [LT R] [DecidableLT R] : List R → Option R
   | [] => none
